@@ -23,3 +23,18 @@ Definition stepD (s : list (N * Z)) (e : ev) : option (list (N * Z)) :=
   end.
 
 Definition C03_dropped_ok (t : list ev) : bool := fold_mon stepD (fun _ => true) [] t.
+
+
+(** [C03_none_ok]: a notifier is answered [None] (its Ret was dropped without being sent) only for an actor that was
+    NOT terminated: when an actor cell is freed without termination its fields are dropped in declaration order, the
+    notifier before the value, so [ENotify a None] precedes [EValDrop a]; a termination drops the value first and then
+    SENDS the cause.  Hence "[ENotify a None] after [EValDrop a]" means a cause that was owed got lost.
+    NOT PROVED of the model (validated on every model trace by the check, like the real traces). *)
+Definition stepNone (s : list N) (e : ev) : option (list N) :=
+  match e with
+  | EValDrop a => Some (a :: s)
+  | ENotify a None => guard (negb (nmem a s)) s
+  | _ => Some s
+  end.
+
+Definition C03_none_ok (t : list ev) : bool := fold_mon stepNone (fun _ => true) [] t.
